@@ -4023,15 +4023,19 @@ class SFTPClient:
                 if not await dstfs.isdir(dstpath):
                     await dstfs.mkdir(dstpath)
 
+                filenames: Set[bytes] = set()
+
                 async for srcname in srcfs.scandir(srcpath):
                     filename = cast(bytes, srcname.filename)
 
                     if filename in (b'.', b'..'):
                         continue
 
-                    if b'/' in filename:
+                    if b'/' in filename or filename in filenames:
                         raise SFTPBadMessage('Invalid file name in '
                                              'directory listing')
+
+                    filenames.add(filename)
 
                     srcfile = posixpath.join(srcpath, filename)
                     dstfile = posixpath.join(dstpath, filename)
